@@ -914,7 +914,7 @@ fn c07_case(c: &C07Case, rep: &mut Report) -> Vec<(String, String)> {
 pub fn main(opts: &Opts, prop: &str) -> Report {
     let mut rep = Report::new(prop);
     rep.rule = match prop {
-        "C05" => "generated graph programs (chains, tee/merge diamonds, rate changers, packet stages; CollectSink or a VectorSink watched by a second thread; finite VectorSource of 0..5 capacities; streams of 1,2,4,16 pages or default) run on MTGraph in seeded add orders with seeded PCT-style delays at yield hooks (incl. >100 ms sleeps so wait time-outs fire); termination decided by a logical stuck rule, sink compared with the harness's own sequential reference executor; distinct = (program, interleaving signature of the global produce/consume order)".into(),
+        "C05" => "generated graph programs (chains, tee/merge diamonds, merges with a second source of another length, rate changers, packet stages; CollectSink or a VectorSink watched by a second thread; finite VectorSource of 0..5 capacities; streams of 1,2,4,16 pages or default) run on MTGraph in seeded add orders with seeded PCT-style delays at yield hooks (incl. >100 ms sleeps so wait time-outs fire); termination decided by a logical stuck rule, sink compared with the harness's own sequential reference executor; distinct = (program, interleaving signature of the global produce/consume order)".into(),
         "C06" => "same generator on the single-threaded Graph (a quarter of the programs end in the library's VectorSink while a second thread keeps taking its Hook::data() guard for 20-400 us at a time); add orders forward, reverse and random; after run() returns Ok every block is called again through a hook accessor and no data may move (quiescence probe), then the sink is compared with the reference; early returns are classified by whether the deciding pass contained a data-moving call with a non-Again verdict; distinct = (program, add order)".into(),
         _ => "chains of 1-5 blocks behind finite and infinite sources on both runners; cancellation before run() is entered, from an outside thread after a seeded delay, from the hook callback at the k-th yield event of whichever thread gets there, and from inside a block's work(); a failing block at every position failing on call k in {1,2,5,50}; distinct = (kind, runner, cancellation site or failure position, k)".into(),
     };
